@@ -135,6 +135,26 @@ var (
 	vEvilAddr = simnet.Addr("10.6.6.6", 666)
 )
 
+// vFamilyHooks re-derive address variables of individual harness files after the address family changed.
+var vFamilyHooks []func()
+
+var vFamilyNames = []string{"ipv4-mapped-16-byte", "ipv4-4-byte", "ipv6"}
+
+// vSetFamily switches every fixture address to the given family (see simnet.Family) and returns the previous one.
+// Call at the start of a scenario: defer vSetFamily(vSetFamily(c.Fam)).
+func vSetFamily(f int) int {
+	old := simnet.Family
+	simnet.Family = f % 3
+	vSrvAddr = simnet.Addr("10.0.0.1", 7777)
+	vCliAddr = simnet.Addr("10.0.0.2", 40000)
+	vCli2Addr = simnet.Addr("10.0.0.3", 40001)
+	vEvilAddr = simnet.Addr("10.6.6.6", 666)
+	for _, h := range vFamilyHooks {
+		h()
+	}
+	return old
+}
+
 type vEnv struct {
 	Net     *simnet.Net
 	Srv     *Server
